@@ -155,7 +155,10 @@ def load_known_findings():
 
 
 def finding_matches(entry, prop, unit, clause, witness):
-    return (entry.get("status") == "finding" and entry.get("property") == prop and entry.get("unit") == unit
+    import fnmatch
+    eu = entry.get("unit", "")
+    unit_ok = eu == unit or (any(ch in eu for ch in "*?") and fnmatch.fnmatchcase(unit, eu))
+    return (entry.get("status") == "finding" and entry.get("property") == prop and unit_ok
             and entry.get("clause") == clause and entry.get("witness") in (witness, "*"))
 
 
